@@ -705,6 +705,13 @@ def load_line(decl: dict, n, wired: List[bool]) -> str:
             f"{len(n.services)} {len(n.applications)} {n.config.node_scan_duration}")
 
 
+def sess_token(n) -> str:
+    usm = n.user_session_manager
+    if usm is None:
+        return "s=L0,R0"
+    return f"s=L{1 if usm.local_session is not None else 0},R{len(usm.remote_sessions)}"
+
+
 def _svc_index(n, name: str) -> int:
     names = [s.name for s in n.services.values()]
     return names.index(name) if name in names else 99
@@ -797,9 +804,11 @@ def run_case(case: dict) -> Tuple[List[str], List[str], List[str], Dict[str, int
         sess_now = {i: 0 for i in range(len(nodes))}   # UserSessionManager.current_timestep as the reference sees it
         tmo = case.get("session_timeout")
         if tmo:
-            for n in nodes:
+            for i, n in enumerate(nodes):
                 n.user_session_manager.local_session_timeout_steps = tmo
                 n.user_session_manager.remote_session_timeout_steps = tmo
+                lines.append(f"sesscfg {i} {tmo} {tmo} {n.user_session_manager.max_remote_sessions}")
+                impl.append("ok")
 
         for k, op in enumerate(case["ops"]):
           nb = len(probe.bad_frames)
@@ -832,8 +841,8 @@ def run_case(case: dict) -> Tuple[List[str], List[str], List[str], Dict[str, int
                   tr = traces()
                   wk = work()
                   for i, n in enumerate(nodes):
-                      lines.append(f"tick {i}")
-                      impl.append(f"done h={tr.get(i, '-')} w={wk.get(i, '')} {snapshot(n)}")
+                      lines.append(f"tick {i} {t - 1}")
+                      impl.append(f"done h={tr.get(i, '-')} w={wk.get(i, '')} {snapshot(n)} {sess_token(n)}")
                       # oracle (independent of the model): a node that is not ON before and after the tick moved no software clock
                       if before[i] != NodeOperatingState.ON and n.operating_state != NodeOperatingState.ON and _clocks(n) != clocks[i]:
                           oracle.append(f"software-clock-moved-while-not-on|{cls_of[i]}|{clocks[i]} -> {_clocks(n)} in tick {k}")
@@ -916,6 +925,8 @@ def run_case(case: dict) -> Tuple[List[str], List[str], List[str], Dict[str, int
                       oracle.append(f"login-succeeded-while-not-on|{cls_of[i]}|{n.operating_state.name}")
                   probe.frame_events[f"login:{'ON' if on else 'not-ON'}:{'ok' if sid else 'refused'}"] = \
                       probe.frame_events.get(f"login:{'ON' if on else 'not-ON'}:{'ok' if sid else 'refused'}", 0) + 1
+                  lines.append(f"login {i} {_svc_index(n, 'user-session-manager')} {'remote' if op.get('remote') else 'local'}")
+                  impl.append(f"{'ok' if sid else 'refused'} {sess_token(n)}")
                   traces()
               elif kind == "traffic":  # scenario scale: ping an address somewhere in the network; only the oracles look at it
                   try:
